@@ -565,6 +565,7 @@ func main() {
 	r.Assume("states with equal multisets of parts (kind + logical rows) have equal futures: part ids, directory names and the order of parts in the snapshot are not part of the state")
 	r.Assume("the step functions called by the introducer/flusher/merger loops are driven one at a time (no concurrency; C05 covers snapshots under concurrency)")
 	fmt.Printf("C02: states=%d transitions=%d nontrivial=%d distinct_outcomes=%d\n", sw.States+sd.States, sw.Transitions+sd.Transitions, sw.Nontrivial+sd.Nontrivial, len(oc))
+	os.RemoveAll(base) // Finish exits the process, deferred calls do not run
 	r.Finish()
 }
 
